@@ -289,12 +289,16 @@ fn split_lines(input: &[u8]) -> Vec<&[u8]> {
 }
 
 /// `captures_at(hay, pos)` for every `pos >= from` (earlier positions are never asked by the model).
-fn caps_sx(m: &grep_regex::RegexMatcher, hay: &[u8], from: usize) -> String {
+/// Also checks the `Sane` contract the theorems assume of the engine (match within `[pos, len]`,
+/// same answer from every position up to the match start); returns false if it is violated.
+fn caps_sx(m: &grep_regex::RegexMatcher, hay: &[u8], from: usize) -> (String, bool) {
     let mut caps = m.new_captures().unwrap();
     let mut tab = vec![];
+    let mut spans: Vec<Option<(usize, usize)>> = vec![];
     for pos in 0..=hay.len() {
         if pos < from {
             tab.push("~".to_string());
+            spans.push(None);
             continue;
         }
         if m.captures_at(hay, pos, &mut caps).unwrap() {
@@ -305,11 +309,26 @@ fn caps_sx(m: &grep_regex::RegexMatcher, hay: &[u8], from: usize) -> String {
                 })
                 .collect();
             tab.push(format!("(caps {})", gs.join(" ")));
+            spans.push(caps.get(0).map(|mm| (mm.start(), mm.end())));
         } else {
             tab.push("~".to_string());
+            spans.push(None);
         }
     }
-    format!("(table {})", tab.join(" "))
+    let mut sane = true;
+    for pos in from..=hay.len() {
+        if let Some((s, e)) = spans[pos] {
+            if s < pos || e < s || e > hay.len() {
+                sane = false;
+            }
+            for p2 in pos..=s.min(hay.len()) {
+                if tab[p2] != tab[pos] {
+                    sane = false;
+                }
+            }
+        }
+    }
+    (format!("(table {})", tab.join(" ")), sane)
 }
 
 fn run_l2(case: &str, c: &L2, drv: &mut Driver, rep: &mut Report) {
@@ -398,6 +417,17 @@ fn run_l2(case: &str, c: &L2, drv: &mut Driver, rep: &mut Report) {
             crlf_bare_lf = true;
         }
         let term_in: &[u8] = &line[content.len()..];
+        let (table, sane) = caps_sx(&matcher, hay, line_start);
+        if !sane {
+            rep.violation(Violation {
+                kind: "impl_vs_model".into(),
+                class: "".into(),
+                tie: "hypothesis `Sane` of theorems iteration_eq_regex_iterator / replace_in_context_eq / C19_partial (engine contract)".into(),
+                case: case.to_string(),
+                detail: format!("captures_at answers for pattern {:?} on {:?} violate the Sane contract", c.pat, show(hay)),
+            });
+        }
+        rep.branch("l2:sane-table-checked");
         let reply = drv.ask(&format!(
             "c19.print {} {} {} {} {} {} {} {}",
             lt,
@@ -407,7 +437,7 @@ fn run_l2(case: &str, c: &L2, drv: &mut Driver, rep: &mut Report) {
             le,
             hex(&c.tmpl),
             names_sx(&names),
-            caps_sx(&matcher, hay, line_start)
+            table
         ));
         model_out.extend(unhex(&reply).unwrap_or_else(|| b"<bad-op>".to_vec()));
         // F6: an empty match at the very end of an unterminated final line
